@@ -1,1024 +1,364 @@
-(* The structural invariant of the second-generation Session model and its preservation by every
-   operation of a protocol-conforming history.  [InvM] is the invariant of the message stores (as in
-   Session/Inv.v), [Inv] adds the output queue: on a transport that accepts writes nothing is left in
-   the queue, and every QoS>0 PUBLISH / PUBREL in the queue belongs to a stored message that awaits
-   exactly the acknowledgement of that packet. *)
-From PahoV Require Import Base.Prelude Codec.Mid Codec.MidProofs Session2.Model Session2.Lemmas.
+(* The structural invariant of the second-generation Session model (output queue; transport that accepts, refuses,
+   or FAILS HARD) is preserved by every operation of every broker-conforming history.
+   [Inv] itself is defined in Session2/LInv.v (message stores: out = C ++ U ++ Q, counter = |C| <= window, ids
+   distinct, publish() order, state/QoS compatibility; queue: empty on a socket that accepts writes, and on an open
+   socket every queued QoS>0 PUBLISH / PUBREL belongs to a stored message awaiting exactly that packet's
+   acknowledgement).  An operation in which no write can fail hard is one of the two-mode operations (Bridge.v) and
+   LInv.v applies; an operation on a dead socket is the two-mode operation followed by the loss of the connection,
+   or one of the two special cases (publish() taking its message out of the window again, the CONNACK
+   retransmission loop stopping) - Fail.v. *)
+From PahoV Require Import Base.Prelude Codec.Mid Codec.MidProofs Session2.Model Session2.Bridge Session2.Fail
+  Session2.LLemmas Session2.LInv.
+From PahoV Require Session2.Legacy.
 From Coq Require Import Sorting.Sorted.
 
-Definition qos_okb (m : omsg) : bool :=
-  if o_qos m =? 1 then
-    match o_st m with MsPublish | MsWaitPuback | MsQueued => true | _ => false end
-  else (o_qos m =? 2) && match o_st m with MsWaitPuback => false | _ => true end.
-
-(* out = C ++ U ++ Q : C counted in _inflight_messages (in the window), U stored while offline
-   (state publish, not counted), Q queued behind the window *)
-Record shape (c : cfg) (s : sess) (C U Q : list omsg) : Prop := mkShape {
-  sh_out : out s = C ++ U ++ Q;
-  sh_infl : inflight s = Z.of_nat (length C);
-  sh_C : Forall (fun m => is_queued m = false) C;
-  sh_U : Forall (fun m => o_st m = MsPublish) U;
-  sh_Q : Forall (fun m => is_queued m = true) Q;
-  sh_max : 0 < c_max c -> Z.of_nat (length C) <= c_max c;
-  sh_full : Q <> [] -> 0 < c_max c /\ Z.of_nat (length C) = c_max c;
-  sh_sockU : sock s = true -> U = [];
-  sh_est : cack s = true -> Forall (fun m => is_wait m = true) C
+(* [Inv] plus the meaning of the two transport flags: a socket whose writes fail also refuses them *)
+Record Inv3 (c : cfg) (s : sess) : Prop := mkInv3 {
+  i3_inv : Inv c s;
+  i3_fb : failing s = true -> blocked s = true
 }.
 
-Record InvM (c : cfg) (s : sess) : Prop := mkInvM {
-  im_shape : exists C U Q, shape c s C U Q;
-  im_nodup : NoDup (mids (out s));
-  im_sorted : StronglySorted Z.lt (tags (out s));
-  im_tags : Forall (fun m => 0 <= o_tag m < ntag s) (out s);
-  im_qos : Forall (fun m => qos_okb m = true) (out s);
-  im_cack : cack s = true -> sock s = true;
-  im_lastmid : 0 <= last_mid s <= 65535;
-  im_ntag : 0 <= ntag s
-}.
+(* ---------------------------------------------------------------- the flags *)
+Definition flags (s : sess) : bool * bool := (blocked s, failing s).
 
-(* a queued packet that occupies a window slot belongs to a stored message in the matching wait state *)
-Definition qpkt_ok (l : list omsg) (x : qpkt) : Prop :=
-  match q_pkt x with
-  | PPublish mid q dup tag =>
-      q <> 0 -> exists m, In m l /\ o_mid m = mid /\ o_tag m = tag /\ o_qos m = q /\ o_dup m = dup /\ o_st m = wait_of q
-  | PPubrel mid tag =>
-      exists m, In m l /\ o_mid m = mid /\ o_tag m = tag /\ o_st m = MsWaitPubcomp
-  | _ => True
-  end.
+Lemma flags_settle s q a : flags (settle s q a) = flags s.
+Proof. destruct a; reflexivity. Qed.
 
-Record Inv (c : cfg) (s : sess) : Prop := mkInv {
-  inv_m : InvM c s;
-  inv_qidle : can_write s = true -> outq s = [];
-  inv_q : Forall (qpkt_ok (out s)) (outq s)
-}.
-
-Lemma inv_shape c s : Inv c s -> exists C U Q, shape c s C U Q.
-Proof. intros I. exact (im_shape _ _ (inv_m _ _ I)). Qed.
-Lemma inv_nodup c s : Inv c s -> NoDup (mids (out s)).
-Proof. intros I. exact (im_nodup _ _ (inv_m _ _ I)). Qed.
-Lemma inv_sorted c s : Inv c s -> StronglySorted Z.lt (tags (out s)).
-Proof. intros I. exact (im_sorted _ _ (inv_m _ _ I)). Qed.
-Lemma inv_tags c s : Inv c s -> Forall (fun m => 0 <= o_tag m < ntag s) (out s).
-Proof. intros I. exact (im_tags _ _ (inv_m _ _ I)). Qed.
-Lemma inv_qos c s : Inv c s -> Forall (fun m => qos_okb m = true) (out s).
-Proof. intros I. exact (im_qos _ _ (inv_m _ _ I)). Qed.
-Lemma inv_cack c s : Inv c s -> cack s = true -> sock s = true.
-Proof. intros I. exact (im_cack _ _ (inv_m _ _ I)). Qed.
-Lemma inv_lastmid c s : Inv c s -> 0 <= last_mid s <= 65535.
-Proof. intros I. exact (im_lastmid _ _ (inv_m _ _ I)). Qed.
-Lemma inv_ntag c s : Inv c s -> 0 <= ntag s.
-Proof. intros I. exact (im_ntag _ _ (inv_m _ _ I)). Qed.
-
-(* ---------------------------------------------------------------- generic list facts *)
-Lemma Forall_firstn {A} (P : A -> Prop) n l : Forall P l -> Forall P (firstn n l).
-Proof. intros H. rewrite <- (firstn_skipn n l) in H. apply Forall_app in H. tauto. Qed.
-Lemma Forall_skipn {A} (P : A -> Prop) n l : Forall P l -> Forall P (skipn n l).
-Proof. intros H. rewrite <- (firstn_skipn n l) in H. apply Forall_app in H. tauto. Qed.
-
-Lemma SSorted_remove (l1 : list Z) x l2 :
-  StronglySorted Z.lt (l1 ++ x :: l2) -> StronglySorted Z.lt (l1 ++ l2).
+Lemma flags_send s x : flags (fst (send s x)) = flags s.
 Proof.
-  induction l1 as [|y l1 IH]; cbn [app]; intros H.
-  - inversion H; assumption.
-  - inversion H as [|? ? Hs Hf]; subst. constructor; [apply IH; assumption|].
-    apply Forall_app in Hf as [Hf1 Hf2]. inversion Hf2; subst. apply Forall_app. split; assumption.
+  unfold send. destruct (sock s); [|reflexivity].
+  destruct (pq (conn s) (tm s) true (outq s) x) as [[q' ev] a]. cbn [fst]. apply flags_settle.
 Qed.
 
-Lemma SSorted_snoc (l : list Z) x :
-  StronglySorted Z.lt l -> Forall (fun y => y < x) l -> StronglySorted Z.lt (l ++ [x]).
+Lemma flags_on_publish c s m : flags (fst (do_on_publish c s m)) = flags s.
 Proof.
-  induction l as [|y l IH]; cbn [app]; intros Hs Hf.
-  - constructor; constructor.
-  - inversion Hs; subst. inversion Hf; subst. constructor; [apply IH; assumption|].
-    apply Forall_app. split; [assumption | constructor; [assumption|constructor]].
+  unfold do_on_publish. destruct (c_max c >? 0); [|reflexivity].
+  destruct (update_inflight c (conn s) (tm s) (inflight s - 1) (outq s) (remove_mid (o_mid m) (out s))) as [[[[o' n] q'] ev] a].
+  cbn [fst]. rewrite flags_settle. reflexivity.
 Qed.
 
-Lemma NoDup_app_snoc (l : list Z) x : NoDup l -> ~ In x l -> NoDup (l ++ [x]).
+Lemma flags_rx c s p r : flags (fst (do_rx c s p r)) = flags s.
 Proof.
-  intros Hn Hx. apply NoDup_rev in Hn. rewrite <- (rev_involutive (l ++ [x])).
-  apply NoDup_rev. rewrite rev_app_distr. cbn. constructor; [|assumption].
-  intros H. apply Hx. apply in_rev. assumption.
+  unfold do_rx. destruct (sock s); cbn [negb]; [|reflexivity].
+  destruct p as [rc|mid|mid|mid|mid|q mid tag].
+  - destruct (rc =? 0); [|reflexivity].
+    destruct (connack_loop (conn s) (tm s) (outq s) (out s)) as [[[o q'] ev] a]. cbn [fst]. rewrite flags_settle. reflexivity.
+  - destruct (find_mid mid (out s)) as [m|]; [|reflexivity].
+    pose proof (flags_on_publish c s m) as H. destruct (do_on_publish c s m). exact H.
+  - destruct (find_mid mid (out s)) as [m|]; [|reflexivity].
+    match goal with |- context [send ?s0 ?x0] => pose proof (flags_send s0 x0) as H; destruct (send s0 x0) end. exact H.
+  - destruct (find_mid mid (out s)) as [m|]; [|reflexivity].
+    pose proof (flags_on_publish c s m) as H. destruct (do_on_publish c s m). exact H.
+  - destruct (in_find mid (inm s)) as [tag|].
+    + destruct (deliver c mid 2 tag r) as [ev pr]. destruct pr; [reflexivity|]. destruct (c_manual c); [reflexivity|].
+      match goal with |- context [send ?s0 ?x0] => pose proof (flags_send s0 x0) as H; destruct (send s0 x0) end. exact H.
+    + destruct (c_manual c); [reflexivity|].
+      match goal with |- context [send ?s0 ?x0] => pose proof (flags_send s0 x0) as H; destruct (send s0 x0) end. exact H.
+  - destruct (q =? 0); [destruct (deliver c 0 0 tag r); reflexivity|].
+    destruct (q =? 1).
+    + destruct (deliver c mid 1 tag r) as [ev pr]. destruct pr; [reflexivity|]. destruct (c_manual c); [reflexivity|].
+      match goal with |- context [send ?s0 ?x0] => pose proof (flags_send s0 x0) as H; destruct (send s0 x0) end. exact H.
+    + match goal with |- context [send ?s0 ?x0] => pose proof (flags_send s0 x0) as H; destruct (send s0 x0) end. exact H.
 Qed.
 
-Lemma mids_app l1 l2 : mids (l1 ++ l2) = mids l1 ++ mids l2.
-Proof. apply map_app. Qed.
-Lemma tags_app l1 l2 : tags (l1 ++ l2) = tags l1 ++ tags l2.
-Proof. apply map_app. Qed.
-
-Lemma map_ext_mid (f : omsg -> omsg) l : (forall m, o_mid (f m) = o_mid m) -> mids (map f l) = mids l.
-Proof. intros H. unfold mids. rewrite map_map. apply map_ext. exact H. Qed.
-Lemma map_ext_tag (f : omsg -> omsg) l : (forall m, o_tag (f m) = o_tag m) -> tags (map f l) = tags l.
-Proof. intros H. unfold tags. rewrite map_map. apply map_ext. exact H. Qed.
-
-Lemma Forall_map_iff {A B} (f : A -> B) (P : B -> Prop) l : Forall P (map f l) <-> Forall (fun x => P (f x)) l.
-Proof. apply Forall_map. Qed.
-
-Lemma NoDup_mids_remove l1 m l2 : NoDup (mids (l1 ++ m :: l2)) ->
-  NoDup (mids (l1 ++ l2)) /\ ~ In (o_mid m) (mids l1).
+Lemma flags_publish c s q : flags (fst (do_publish c s q)) = flags s.
 Proof.
-  unfold mids. rewrite !map_app. cbn [map]. intros H. split.
-  - eapply NoDup_remove_1; exact H.
-  - apply NoDup_remove_2 in H. intros H1. apply H. apply in_or_app. left. exact H1.
-Qed.
-Lemma SSorted_tags_remove l1 m l2 : StronglySorted Z.lt (tags (l1 ++ m :: l2)) ->
-  StronglySorted Z.lt (tags (l1 ++ l2)).
-Proof. unfold tags. rewrite !map_app. cbn [map]. apply SSorted_remove. Qed.
-Lemma Forall_remove {A} (P : A -> Prop) l1 x l2 : Forall P (l1 ++ x :: l2) -> Forall P (l1 ++ l2).
-Proof. intros H. apply Forall_app in H as [H1 H2]. inversion H2; subst. apply Forall_app. split; assumption. Qed.
-
-(* ---------------------------------------------------------------- per-message facts *)
-Lemma toQ_mid m : o_mid (toQ m) = o_mid m. Proof. reflexivity. Qed.
-Lemma toQ_tag m : o_tag (toQ m) = o_tag m. Proof. reflexivity. Qed.
-Lemma cl1_mid m : o_mid (cl1 m) = o_mid m.
-Proof. unfold cl1. destruct (o_st m); try reflexivity. destruct (o_qos m =? 2); reflexivity. Qed.
-Lemma cl1_tag m : o_tag (cl1 m) = o_tag m.
-Proof. unfold cl1. destruct (o_st m); try reflexivity. destruct (o_qos m =? 2); reflexivity. Qed.
-Lemma rel1_mid m : o_mid (rel1 m) = o_mid m. Proof. reflexivity. Qed.
-Lemma rel1_tag m : o_tag (rel1 m) = o_tag m. Proof. reflexivity. Qed.
-
-Ltac msg_crush :=
-  let mid := fresh "mid" in let q := fresh "q" in let st := fresh "st" in
-  let d := fresh "d" in let t := fresh "t" in
-  match goal with m : omsg |- _ => destruct m as [mid q st d t] end;
-  unfold qos_okb, reset1, toQ, cl1, rel1, wait_of, is_queued, is_wait, set_st, set_st_dup in *; cbn in *;
-  destruct (q =? 1) eqn:?; destruct (q =? 2) eqn:?; destruct st; cbn in *;
-  repeat match goal with H : (_ =? _) = _ |- _ => rewrite H in * end; cbn in *;
-  intros; try reflexivity; try discriminate; try lia.
-
-Lemma qos_ok_reset1 cl m : qos_okb m = true -> qos_okb (reset1 cl m) = true.
-Proof. destruct cl; msg_crush. Qed.
-Lemma qos_ok_toQ m : qos_okb m = true -> qos_okb (toQ m) = true.
-Proof. msg_crush. Qed.
-Lemma qos_ok_cl1 m : qos_okb m = true -> qos_okb (cl1 m) = true.
-Proof. msg_crush. Qed.
-Lemma qos_ok_rel1 m : qos_okb m = true -> qos_okb (rel1 m) = true.
-Proof. msg_crush. Qed.
-Lemma cl1_nq m : is_queued m = false -> is_queued (cl1 m) = false.
-Proof. msg_crush. Qed.
-Lemma cl1_wait m : qos_okb m = true -> is_queued m = false -> is_wait (cl1 m) = true.
-Proof. msg_crush. Qed.
-Lemma rel1_wait m : is_wait (rel1 m) = true.
-Proof. msg_crush. Qed.
-Lemma wait_nq m : is_wait m = true -> is_queued m = false.
-Proof. msg_crush. Qed.
-
-(* a message in a wait state lies in the counted part *)
-Lemma wait_in_C c s C U Q m : shape c s C U Q -> In m (out s) -> is_wait m = true -> In m C.
-Proof.
-  intros Sh Hin Hw. rewrite (sh_out _ _ _ _ _ Sh) in Hin.
-  apply in_app_or in Hin as [H|H]; [assumption|]. exfalso.
-  apply in_app_or in H as [H|H].
-  - pose proof (proj1 (Forall_forall _ _) (sh_U _ _ _ _ _ Sh) m H) as E. unfold is_wait in Hw. rewrite E in Hw. discriminate.
-  - pose proof (proj1 (Forall_forall _ _) (sh_Q _ _ _ _ _ Sh) m H) as E. apply wait_nq in Hw. congruence.
+  unfold do_publish. cbv zeta. destruct (q =? 0).
+  - destruct (sock s); [|reflexivity].
+    match goal with |- context [send ?s0 ?x0] => pose proof (flags_send s0 x0) as H; destruct (send s0 x0) end. exact H.
+  - destruct ((c_maxq c >? 0) && (Z.of_nat (length (out s)) >=? c_maxq c)); [reflexivity|].
+    destruct (has_mid (mid_next (last_mid s)) (out s)); [reflexivity|].
+    destruct (window_free c (inflight s)); [|reflexivity]. destruct (sock s); [|reflexivity].
+    match goal with |- context [send ?s0 ?x0] => pose proof (flags_send s0 x0) as H; destruct (send s0 x0) as [s2 ev] end.
+    cbn [fst] in *. destruct (sock s2); exact H.
 Qed.
 
-Lemma window_free_Q_nil c s C U Q : 0 <= c_max c -> shape c s C U Q ->
-  window_free c (inflight s) = true -> Q = [].
+Lemma fb_step c s o : (failing s = true -> blocked s = true) ->
+  failing (fst (step c s o)) = true -> blocked (fst (step c s o)) = true.
 Proof.
-  intros Hc Sh W. destruct Q as [|q Q]; [reflexivity|]. exfalso.
-  destruct (sh_full _ _ _ _ _ Sh ltac:(discriminate)) as [H1 H2].
-  unfold window_free in W. rewrite (sh_infl _ _ _ _ _ Sh) in W. lia.
+  intros Hfb. destruct o as [q|ok| |p r|mid q|m]; cbn [step].
+  - pose proof (flags_publish c s q) as H. unfold flags in H. inversion H as [[H1 H2]]. rewrite H1, H2. exact Hfb.
+  - unfold do_reconnect. destruct (reset_out_list c (clean_now c s) 0 (out s)). destruct ok; cbn; discriminate.
+  - destruct (sock s); exact Hfb.
+  - pose proof (flags_rx c s p r) as H. unfold flags in H. inversion H as [[H1 H2]]. rewrite H1, H2. exact Hfb.
+  - unfold do_ack. destruct (c_manual c); [|exact Hfb].
+    destruct (q =? 1); [pose proof (flags_send s (mkQ (PPuback mid) false)) as H; unfold flags in H; inversion H as [[H1 H2]]; rewrite H1, H2; exact Hfb|].
+    destruct (q =? 2); [pose proof (flags_send s (mkQ (PPubcomp mid) false)) as H; unfold flags in H; inversion H as [[H1 H2]]; rewrite H1, H2; exact Hfb | exact Hfb].
+  - unfold do_transport. destruct (sock s); [|exact Hfb]. destruct m.
+    + destruct (lw (conn s) TAccept true (outq s)) as [[q' ev] a]. cbn [fst]. destruct a; cbn; discriminate.
+    + cbn. discriminate.
+    + destruct (lw (conn s) TFail true (outq s)) as [[q' ev] a]. cbn [fst]. destruct a; cbn; reflexivity.
 Qed.
 
-Lemma notfree_full c s C U Q : 0 <= c_max c -> shape c s C U Q ->
-  window_free c (inflight s) = false -> 0 < c_max c /\ Z.of_nat (length C) = c_max c.
+(* ---------------------------------------------------------------- [Inv] does not look at [failing]; losing the socket *)
+Lemma inv_set_failing c s b : Inv c s -> Inv c (set_failing s b).
 Proof.
-  intros Hc Sh W. unfold window_free in W. rewrite (sh_infl _ _ _ _ _ Sh) in W.
-  assert (0 < c_max c) by lia. split; [assumption|]. pose proof (sh_max _ _ _ _ _ Sh H). lia.
+  intros [[[C [U [Q [So Si SC SU SQ Sm Sf Ss Se]]]] Hnd Hso Htg Hqo Hca Hlm Hnt] Hi Hq].
+  destruct s as [o i n lm sk f ck cn nt q bl fl]. unfold set_failing. cbn in *.
+  constructor; [|exact Hi | exact Hq].
+  constructor; cbn; try assumption. exists C, U, Q. constructor; cbn; assumption.
 Qed.
 
-(* ---------------------------------------------------------------- the queue: send, extensionality *)
-Lemma send_fst s x : fst (send s x) = with_q s (fst (pq (conn s) (can_write s) (outq s) x)).
-Proof. unfold send. destruct (pq (conn s) (can_write s) (outq s) x). reflexivity. Qed.
-
-Lemma pq_fst cn can q x : fst (pq cn can q x) = if can then [] else q ++ [x].
-Proof. unfold pq, lw. destruct can; reflexivity. Qed.
-
-Lemma send_outq s x : outq (fst (send s x)) = if can_write s then [] else outq s ++ [x].
-Proof. rewrite send_fst, pq_fst. reflexivity. Qed.
-
-(* the message-store invariant does not look at the queue *)
-Lemma shape_ext c s s' C U Q :
-  out s' = out s -> inflight s' = inflight s -> sock s' = sock s -> cack s' = cack s ->
-  shape c s C U Q -> shape c s' C U Q.
+Lemma inv_lost c s : Inv c s -> Inv c (lost s).
 Proof.
-  intros E1 E2 E3 E4 [So Si SC SU SQ Sm Sf Ss Se].
-  constructor; rewrite ?E1, ?E2, ?E3, ?E4; assumption.
+  intros [[[C [U [Q Sh]]] Hnd Hso Htg Hqo Hca Hlm Hnt] Hi Hq].
+  unfold lost, with_sock. rewrite andb_false_r.
+  constructor; [|cbn; discriminate | cbn; discriminate].
+  constructor; cbn; try assumption; try discriminate.
+  exists C, U, Q. destruct Sh as [So Si SC SU SQ Sm Sf Ss Se]. constructor; cbn; try assumption; discriminate.
 Qed.
 
-Lemma invm_ext c s s' :
-  out s' = out s -> inflight s' = inflight s -> last_mid s' = last_mid s -> sock s' = sock s ->
-  cack s' = cack s -> ntag s' = ntag s -> InvM c s -> InvM c s'.
+Lemma inv_fail_after c r : Inv c (fst r) -> Inv c (fst (fail_after r)).
+Proof. intros I. unfold fail_after. destruct (wrote (snd r)); cbn [fst]; [apply inv_lost|]; exact I. Qed.
+
+(* the queue of a state without a socket is not constrained *)
+Lemma inv_offline_q c s q : Inv c s -> sock s = false -> Inv c (with_q s q).
 Proof.
-  intros E1 E2 E3 E4 E5 E6 [[C [U [Q Sh]]] Hnd Hso Htg Hqo Hca Hlm Hnt].
-  constructor; rewrite ?E1, ?E2, ?E3, ?E4, ?E5, ?E6; try assumption.
-  exists C, U, Q. eapply shape_ext; eassumption.
+  intros [Im Hi Hq] Hs. constructor; [apply invm_with_q; exact Im | |].
+  - unfold Legacy.can_write. cbn [sock with_q blocked]. rewrite Hs. discriminate.
+  - cbn [sock with_q]. rewrite Hs. discriminate.
 Qed.
 
-Lemma invm_with_q c s q : InvM c s -> InvM c (with_q s q).
-Proof. apply invm_ext; reflexivity. Qed.
-
-Lemma invm_send c s x : InvM c s -> InvM c (fst (send s x)).
-Proof. rewrite send_fst. apply invm_with_q. Qed.
-
-(* witnesses of [qpkt_ok] are in a wait state: it is enough that the wait-state messages survive *)
-Lemma wait_of_wait m q : o_st m = wait_of q -> is_wait m = true.
-Proof. unfold is_wait, wait_of. intros ->. destruct (q =? 1); reflexivity. Qed.
-
-Lemma qpkt_ok_mono l l' x :
-  (forall m, In m l -> is_wait m = true -> In m l') -> qpkt_ok l x -> qpkt_ok l' x.
+(* ---------------------------------------------------------------- _update_inflight releases at most one message *)
+Lemma split_unique (P : omsg -> bool) : forall A B A' B',
+  Forall (fun m => P m = false) A -> Forall (fun m => P m = true) B ->
+  Forall (fun m => P m = false) A' -> Forall (fun m => P m = true) B' ->
+  A ++ B = A' ++ B' -> A = A' /\ B = B'.
 Proof.
-  intros H. unfold qpkt_ok. destruct (q_pkt x) as [|mid q dup tag|mid tag|mid|mid|mid]; try exact (fun a => a).
-  - intros Hx Hq. destruct (Hx Hq) as (m & Hin & H1 & H2 & H3 & H4 & H5).
-    exists m. split; [apply H; [exact Hin | eapply wait_of_wait; exact H5]|]. tauto.
-  - intros (m & Hin & H1 & H2 & H3). exists m. split; [apply H; [exact Hin | unfold is_wait; rewrite H3; reflexivity]|]. tauto.
+  induction A as [|a A IH]; intros B A' B' HA HB HA' HB' E.
+  - destruct A' as [|a' A']; [split; [reflexivity | exact E]|].
+    cbn [app] in E. subst B. inversion HB; subst. inversion HA'; subst. congruence.
+  - destruct A' as [|a' A'].
+    + cbn [app] in E. subst B'. inversion HB'; subst. inversion HA; subst. congruence.
+    + cbn [app] in E. inversion E; subst. inversion HA; subst. inversion HA'; subst.
+      destruct (IH B A' B' ltac:(assumption) HB ltac:(assumption) HB' ltac:(assumption)) as [-> ->]. split; reflexivity.
 Qed.
 
-Lemma Forall_qpkt_ok_mono l l' q :
-  (forall m, In m l -> is_wait m = true -> In m l') -> Forall (qpkt_ok l) q -> Forall (qpkt_ok l') q.
-Proof. intros H. apply Forall_impl. intros x. apply qpkt_ok_mono. exact H. Qed.
-
-(* packets that do not occupy a window slot *)
-Definition plain (x : qpkt) : Prop :=
-  match q_pkt x with
-  | PPublish _ q _ _ => q = 0
-  | PPubrel _ _ => False
-  | _ => True
-  end.
-Lemma qpkt_ok_plain l x : plain x -> qpkt_ok l x.
-Proof.
-  unfold plain, qpkt_ok. destruct (q_pkt x); try (intros; exact I); try contradiction.
-  all: try (intros -> H; exfalso; apply H; reflexivity).
-Qed.
-
-(* the queue part of the invariant after one hand-over *)
-Lemma invq_send (s : sess) x l' :
-  (can_write s = true -> outq s = []) ->
-  Forall (qpkt_ok l') (outq s) -> qpkt_ok l' x ->
-  (can_write s = true -> outq (fst (send s x)) = []) /\ Forall (qpkt_ok l') (outq (fst (send s x))).
-Proof.
-  intros Hi Hq Hx. rewrite send_outq. destruct (can_write s).
-  - split; [reflexivity | constructor].
-  - split; [discriminate|]. apply Forall_app. split; [exact Hq | constructor; [exact Hx | constructor]].
-Qed.
-
-Lemma send_out s x : out (fst (send s x)) = out s.
-Proof. rewrite send_fst. reflexivity. Qed.
-Lemma send_can s x : can_write (fst (send s x)) = can_write s.
-Proof. rewrite send_fst. reflexivity. Qed.
-
-(* one hand-over of a packet that needs no witness keeps the invariant *)
-Lemma inv_send_plain c s x : Inv c s -> plain x -> Inv c (fst (send s x)).
-Proof.
-  intros [Im Hi Hq] Hx.
-  destruct (invq_send s x (out s) Hi Hq (qpkt_ok_plain _ _ Hx)) as [H1 H2].
-  constructor; [apply invm_send; exact Im | rewrite send_can; exact H1 | rewrite send_out; exact H2].
-Qed.
-
-(* no packet in the queue refers to the message with this id *)
-Definition q_free (mid : Z) (q : list qpkt) : Prop := q_has_pub mid q = false /\ q_has_rel mid q = false.
-
-Lemma q_has_pub_false mid q x m qs d t : q_has_pub mid q = false -> In x q -> q_pkt x = PPublish m qs d t -> qs <> 0 -> m <> mid.
-Proof.
-  unfold q_has_pub. intros H Hin E Hq Hm. subst m.
-  assert (existsb (fun x0 => match q_pkt x0 with PPublish m qs0 _ _ => negb (qs0 =? 0) && (m =? mid) | _ => false end) q = true).
-  { apply existsb_exists. exists x. split; [exact Hin|]. rewrite E. lia. }
-  congruence.
-Qed.
-
-Lemma q_has_rel_false mid q x m t : q_has_rel mid q = false -> In x q -> q_pkt x = PPubrel m t -> m <> mid.
-Proof.
-  unfold q_has_rel. intros H Hin E Hm. subst m.
-  assert (existsb (fun x0 => match q_pkt x0 with PPubrel m _ => m =? mid | _ => false end) q = true).
-  { apply existsb_exists. exists x. split; [exact Hin|]. rewrite E. lia. }
-  congruence.
-Qed.
-
-Lemma q_has_pub_true mid q : q_has_pub mid q = true ->
-  exists x qs d t, In x q /\ q_pkt x = PPublish mid qs d t /\ qs <> 0.
-Proof.
-  unfold q_has_pub. intros H. apply existsb_exists in H as (x & Hin & Hx).
-  destruct (q_pkt x) as [|m qs d t| | | |] eqn:E; try discriminate.
-  exists x, qs, d, t. split; [exact Hin|]. assert (m = mid) by lia. subst m. split; [exact E | lia].
-Qed.
-
-Lemma q_has_rel_true mid q : q_has_rel mid q = true -> exists x t, In x q /\ q_pkt x = PPubrel mid t.
-Proof.
-  unfold q_has_rel. intros H. apply existsb_exists in H as (x & Hin & Hx).
-  destruct (q_pkt x) as [| |m t| | |] eqn:E; try discriminate.
-  exists x, t. split; [exact Hin|]. assert (m = mid) by lia. subst m. exact E.
-Qed.
-
-(* two stored messages with the same id are the same message *)
-Lemma NoDup_mids_eq l m m' : NoDup (mids l) -> In m l -> In m' l -> o_mid m = o_mid m' -> m = m'.
-Proof.
-  induction l as [|x l IH]; intros Hnd H1 H2 E; [destruct H1|].
-  cbn [mids map] in Hnd. inversion Hnd as [|? ? Hx Hnd']; subst.
-  destruct H1 as [->|H1], H2 as [->|H2].
-  - reflexivity.
-  - exfalso. apply Hx. rewrite E. apply in_map. exact H2.
-  - exfalso. apply Hx. rewrite <- E. apply in_map. exact H1.
-  - apply IH; assumption.
-Qed.
-
-(* a packet that refers to the stored message with this id *)
-Definition refers (mid : Z) (x : qpkt) : Prop :=
-  match q_pkt x with
-  | PPublish m q _ _ => q <> 0 /\ m = mid
-  | PPubrel m _ => m = mid
-  | _ => False
-  end.
-
-Lemma q_free_refers mid q x : q_free mid q -> In x q -> ~ refers mid x.
-Proof.
-  intros [H1 H2] Hin. unfold refers. destruct (q_pkt x) as [|m qs d t|m t|m|m|m] eqn:E.
-  - intros [].
-  - intros [Hq Hm]. exact (q_has_pub_false _ _ _ _ _ _ _ H1 Hin E Hq Hm).
-  - intros Hm. exact (q_has_rel_false _ _ _ _ _ H2 Hin E Hm).
-  - intros [].
-  - intros [].
-  - intros [].
-Qed.
-
-Lemma qpkt_ok_except mid l l' x : ~ refers mid x ->
-  (forall m, In m l -> is_wait m = true -> o_mid m <> mid -> In m l') -> qpkt_ok l x -> qpkt_ok l' x.
-Proof.
-  unfold refers, qpkt_ok. intros Hn H.
-  destruct (q_pkt x) as [|m q dup tag|m tag|m|m|m]; try exact (fun a => a).
-  - intros Hx Hq. destruct (Hx Hq) as (w & Hin & H1 & H2 & H3 & H4 & H5).
-    exists w. split; [|tauto]. apply H; [exact Hin | eapply wait_of_wait; exact H5|].
-    intros E. apply Hn. split; [exact Hq | congruence].
-  - intros (w & Hin & H1 & H2 & H3). exists w. split; [|tauto].
-    apply H; [exact Hin | unfold is_wait; rewrite H3; reflexivity|]. intros E. apply Hn. congruence.
-Qed.
-
-Lemma with_q_same s : with_q s (outq s) = s.
-Proof. destruct s; reflexivity. Qed.
-
-(* what hand_all leaves in the queue, under the idle-queue invariant *)
-Lemma hand_all_fst cn can q H : (can = true -> q = []) ->
-  fst (hand_all cn can q H) = if can then [] else q ++ H.
-Proof.
-  intros Hq. destruct can.
-  - rewrite (Hq eq_refl), hand_all_can. reflexivity.
-  - rewrite hand_all_blocked. reflexivity.
-Qed.
-
-(* ---------------------------------------------------------------- preservation, op by op *)
 Section Preserve.
 Variable c : cfg.
 Hypothesis Hcfg : cfg_ok c = true.
 
-Lemma max_nonneg : 0 <= c_max c.
-Proof. unfold cfg_ok in Hcfg. lia. Qed.
-
-Lemma invm_init : InvM c (init c).
+Lemma ui_le1_inv s mid : Inv c s -> sock s = true -> cack s = true -> Legacy.can_write s = false ->
+  (forall m, find_mid mid (out s) = Some m -> is_wait m = true) -> ui_le1 c s mid.
 Proof.
-  constructor; cbn; try constructor; try lia; try discriminate.
-  exists [], [], []. constructor; cbn; try constructor; try lia; try discriminate; try reflexivity.
-  all: exfalso; apply H; reflexivity.
+  intros I Hs Hck Hcw Hw m Ef. pose proof (find_mid_In _ _ _ Ef) as [Hin _].
+  destruct (on_publish_char c Hcfg s m (inv_m _ _ I) Hs Hck Hin (Hw m Ef))
+    as (C1 & C2 & Q & j & n & So & Se' & SQ & Hj & Hn & Hle & Hfull & E).
+  rewrite E. cbn [snd]. rewrite Hcw, hand_all_blocked. cbn [snd length]. rewrite !map_length.
+  (* the window was full if anything is queued behind it *)
+  destruct (inv_shape _ _ I) as (C & U & Q0 & Sh). pose proof (sh_sockU _ _ _ _ _ Sh Hs) as HU. subst U.
+  pose proof (sh_out _ _ _ _ _ Sh) as So0. cbn [app] in So0. rewrite So in So0.
+  assert (Hnq : Forall (fun x => is_queued x = false) (C1 ++ m :: C2)).
+  { apply Forall_app. apply Forall_app in Se' as [H1 H2]. split.
+    - eapply Forall_impl; [|exact H1]. cbn. intros a. apply wait_nq.
+    - constructor; [apply wait_nq; exact (Hw m Ef)|]. eapply Forall_impl; [|exact H2]. cbn. intros a. apply wait_nq. }
+  destruct (split_unique is_queued _ _ _ _ Hnq SQ (sh_C _ _ _ _ _ Sh) (sh_Q _ _ _ _ _ Sh) So0) as [EC EQ]. subst C Q0.
+  rewrite firstn_length.
+  destruct Q as [|x Q]; [cbn [length]; lia|].
+  destruct (sh_full _ _ _ _ _ Sh ltac:(discriminate)) as [Hpos Hfullw].
+  rewrite app_length in Hfullw. cbn [length] in Hfullw. rewrite app_length in Hn.
+  specialize (Hle Hpos). lia.
 Qed.
 
-Lemma inv_init : Inv c (init c).
-Proof. constructor; [apply invm_init | reflexivity | constructor]. Qed.
+(* ---------------------------------------------------------------- the stopped CONNACK loop *)
+Definition adv (m m' : omsg) : Prop := m' = m \/ m' = cl1 m.
 
-(* ---- publish() ---- *)
-Definition pub_s1 (s : sess) : sess :=
-  mkS (out s) (inm s) (inflight s) (mid_next (last_mid s)) (sock s) (first s) (cack s) (conn s) (ntag s + 1) (outq s) (blocked s).
-Definition pub_new (s : sess) (q : Z) (st : mstate) : omsg := mkO (mid_next (last_mid s)) q st false (ntag s).
-
-Lemma publish_fst s q : fst (do_publish c s q) =
-  if q =? 0 then
-    if sock s then fst (send (pub_s1 s) (mkQ (PPublish (mid_next (last_mid s)) 0 false (ntag s)) true)) else pub_s1 s
-  else if (c_maxq c >? 0) && (Z.of_nat (length (out s)) >=? c_maxq c) then pub_s1 s
-  else if has_mid (mid_next (last_mid s)) (out s) then pub_s1 s
-  else if window_free c (inflight s) then
-    if sock s then
-      fst (send (with_out (pub_s1 s) (out s ++ [pub_new s q (wait_of q)]) (inflight s + 1))
-                (mkQ (PPublish (mid_next (last_mid s)) q false (ntag s)) true))
-    else with_out (pub_s1 s) (out s ++ [pub_new s q MsPublish]) (inflight s)
-  else with_out (pub_s1 s) (out s ++ [pub_new s q MsQueued]) (inflight s).
+Lemma adv_mid m m' : adv m m' -> o_mid m' = o_mid m.
+Proof. intros [->| ->]; [reflexivity | apply cl1_mid]. Qed.
+Lemma adv_tag m m' : adv m m' -> o_tag m' = o_tag m.
+Proof. intros [->| ->]; [reflexivity | apply cl1_tag]. Qed.
+Lemma adv_queued m m' : adv m m' -> is_queued m' = is_queued m.
 Proof.
-  unfold do_publish, pub_s1, pub_new. cbv zeta.
-  destruct (q =? 0).
-  { destruct (sock s); [|reflexivity]. destruct (send _ _). reflexivity. }
+  intros [->| ->]; [reflexivity|]. destruct (is_queued m) eqn:E; [|apply cl1_nq; exact E].
+  unfold cl1. unfold is_queued in E. destruct (o_st m) eqn:Est; try discriminate. unfold is_queued. rewrite Est. reflexivity.
+Qed.
+Lemma adv_qos m m' : adv m m' -> qos_okb m = true -> qos_okb m' = true.
+Proof. intros [->| ->]; [exact (fun H => H) | apply qos_ok_cl1]. Qed.
+
+Lemma adv_tagb n m m' : adv m m' -> 0 <= o_tag m < n -> 0 <= o_tag m' < n.
+Proof. intros H. rewrite (adv_tag m m' H). exact (fun x => x). Qed.
+
+Lemma adv_map {B} (f : omsg -> B) : (forall m m', adv m m' -> f m' = f m) ->
+  forall l r, Forall2 adv l r -> map f r = map f l.
+Proof. intros Hf l r H. induction H as [|m m' l r Hm _ IH]; cbn [map]; [reflexivity|]. rewrite (Hf m m' Hm), IH. reflexivity. Qed.
+
+Lemma adv_Forall (P : omsg -> Prop) : (forall m m', adv m m' -> P m -> P m') ->
+  forall l r, Forall2 adv l r -> Forall P l -> Forall P r.
+Proof.
+  intros Hp l r H. induction H as [|m m' l r Hm _ IH]; intros HF; [constructor|].
+  inversion HF; subst. constructor; [eapply Hp; eassumption | apply IH; assumption].
+Qed.
+
+Lemma adv_length l r : Forall2 adv l r -> length r = length l.
+Proof. intros H. induction H; cbn [length]; [reflexivity | f_equal; assumption]. Qed.
+
+Lemma adv_refl : forall l, Forall2 adv l l.
+Proof. induction l; constructor; [left; reflexivity | assumption]. Qed.
+
+Lemma invm_adv s r q' : InvM c s -> sock s = true -> Forall2 adv (out s) r ->
+  InvM c (with_q (with_sock (with_out (connack_s1 s) r (inflight s)) false) q').
+Proof.
+  intros [[C [U [Q Sh]]] Hnd Hso Htg Hqo Hca Hlm Hnt] Hs HF.
+  pose proof (sh_sockU _ _ _ _ _ Sh Hs) as HU. subst U.
+  destruct Sh as [So Si SC SU SQ Sm Sf Ss Se]. cbn [app] in So.
+  rewrite So in HF. apply Forall2_app_inv_l in HF as (C' & Q' & HC & HQ & ->).
+  assert (Hm : mids (C' ++ Q') = mids (out s)).
+  { rewrite So. unfold mids. rewrite !map_app.
+    rewrite (adv_map o_mid adv_mid _ _ HC), (adv_map o_mid adv_mid _ _ HQ). reflexivity. }
+  assert (Ht : tags (C' ++ Q') = tags (out s)).
+  { rewrite So. unfold tags. rewrite !map_app.
+    rewrite (adv_map o_tag adv_tag _ _ HC), (adv_map o_tag adv_tag _ _ HQ). reflexivity. }
+  assert (HlC : length C' = length C) by (apply adv_length; exact HC).
+  assert (HlQ : length Q' = length Q) by (apply adv_length; exact HQ).
+  rewrite So in Htg, Hqo. apply Forall_app in Htg as [Htg1 Htg2]. apply Forall_app in Hqo as [Hqo1 Hqo2].
+  unfold with_sock, with_q, with_out, connack_s1. cbn [out inm inflight last_mid sock first cack conn ntag outq blocked failing].
+  constructor; cbn -[mids tags]; rewrite ?Hm, ?Ht; try assumption; try discriminate.
+  - exists C', [], Q'. constructor; cbn; try discriminate.
+    + reflexivity.
+    + rewrite HlC. exact Si.
+    + apply (adv_Forall (fun m => is_queued m = false) (fun m m' H Hq => eq_trans (adv_queued m m' H) Hq) _ _ HC SC).
+    + constructor.
+    + apply (adv_Forall (fun m => is_queued m = true) (fun m m' H Hq => eq_trans (adv_queued m m' H) Hq) _ _ HQ SQ).
+    + rewrite HlC. exact Sm.
+    + intros Hne. rewrite HlC. apply Sf. intros ->. apply Hne. destruct Q'; [reflexivity | discriminate].
+  - apply Forall_app. split.
+    + apply (adv_Forall (fun m => 0 <= o_tag m < ntag s) (adv_tagb (ntag s)) _ _ HC Htg1).
+    + apply (adv_Forall (fun m => 0 <= o_tag m < ntag s) (adv_tagb (ntag s)) _ _ HQ Htg2).
+  - apply Forall_app. split.
+    + apply (adv_Forall (fun m => qos_okb m = true) adv_qos _ _ HC Hqo1).
+    + apply (adv_Forall (fun m => qos_okb m = true) adv_qos _ _ HQ Hqo2).
+Qed.
+
+Lemma inv_connack_dead s r : Inv c s -> dead s -> cack s = false -> Inv c (fst (do_rx c s (IConnack 0) r)).
+Proof.
+  intros I Hd Hck. pose proof Hd as (Hs & Hf & Hb).
+  assert (Hstop : forall o q' ev, Forall2 adv (out s) o ->
+            Inv c (fst (settle (with_out (connack_s1 s) o (inflight s)) q' false, Inp (IConnack 0) :: ev))).
+  { intros o q' ev HF. cbn [fst settle]. constructor.
+    - apply invm_adv; [exact (inv_m _ _ I) | exact Hs | exact HF].
+    - unfold Legacy.can_write. cbn. discriminate.
+    - cbn. discriminate. }
+  destruct (connack_dead (conn s) (out s) (outq s)) as [[H1 H2]|[(Hne & H1 & _)|(l1 & m & l2 & x & El & Ex & Hq1 & Hq & H1)]].
+  - (* no write attempted: the two-mode operation *)
+    assert (E : do_rx c s (IConnack 0) r = Legacy.do_rx c s (IConnack 0) r).
+    { unfold do_rx, Legacy.do_rx. rewrite Hs. cbn [negb Z.eqb]. rewrite (tm_dead s Hd), (canw_dead s Hd), H1, H2. reflexivity. }
+    rewrite E. apply (LInv.inv_rx c Hcfg s (IConnack 0) r I). cbn [Legacy.conf_op]. rewrite Hs, Hck. reflexivity.
+  - unfold do_rx. rewrite Hs. cbn [negb Z.eqb]. rewrite (tm_dead s Hd), H1. apply Hstop. apply adv_refl.
+  - unfold do_rx. rewrite Hs. cbn [negb Z.eqb]. rewrite (tm_dead s Hd), H1. apply Hstop.
+    rewrite El. apply Forall2_app; [apply adv_refl|]. constructor; [right; reflexivity | apply adv_refl].
+Qed.
+
+(* ---------------------------------------------------------------- every operation *)
+Lemma conf_wait_puback s mid : Legacy.conf_op c s (Legacy.ORx (IPuback mid) false) = true -> sock s = true ->
+  cack s = true /\ forall m, find_mid mid (out s) = Some m -> is_wait m = true.
+Proof.
+  cbn [Legacy.conf_op]. intros H Hs. rewrite Hs in H. cbn [negb] in H. apply andb_true_iff in H as [Hck H]. split; [exact Hck|].
+  intros m Ef. rewrite Ef in H. apply andb_true_iff in H as [H _]. apply andb_true_iff in H as [_ H].
+  unfold is_wait. destruct (o_st m); try discriminate; reflexivity.
+Qed.
+Lemma conf_wait_pubcomp s mid : Legacy.conf_op c s (Legacy.ORx (IPubcomp mid) false) = true -> sock s = true ->
+  cack s = true /\ forall m, find_mid mid (out s) = Some m -> is_wait m = true.
+Proof.
+  cbn [Legacy.conf_op]. intros H Hs. rewrite Hs in H. cbn [negb] in H. apply andb_true_iff in H as [Hck H]. split; [exact Hck|].
+  intros m Ef. rewrite Ef in H. apply andb_true_iff in H as [H _]. apply andb_true_iff in H as [_ H].
+  unfold is_wait. destruct (o_st m); try discriminate; reflexivity.
+Qed.
+
+(* the bound that rx_dead needs, from the invariant and conformance *)
+Lemma ui_le1_conf s p r : Inv c s -> dead s -> Legacy.conf_op c s (Legacy.ORx p r) = true -> forall mid,
+  (p = IPuback mid \/ p = IPubcomp mid) -> ui_le1 c s mid.
+Proof.
+  intros I Hd Hconf mid Hp. pose proof Hd as (Hs & _ & _).
+  destruct Hp as [-> | ->].
+  - destruct (conf_wait_puback s mid Hconf Hs) as [Hck Hw].
+    apply ui_le1_inv; [exact I | exact Hs | exact Hck | exact (canw_dead s Hd) | exact Hw].
+  - destruct (conf_wait_pubcomp s mid Hconf Hs) as [Hck Hw].
+    apply ui_le1_inv; [exact I | exact Hs | exact Hck | exact (canw_dead s Hd) | exact Hw].
+Qed.
+
+End Preserve.
+
+Section Step.
+Variable c : cfg.
+Hypothesis Hcfg : cfg_ok c = true.
+
+Lemma inv_rx_dead s p r : Inv c s -> dead s -> conf_op c s (ORx p r) = true -> Inv c (fst (do_rx c s p r)).
+Proof.
+  intros I Hd Hconf. pose proof Hd as (Hs & _ & _).
+  assert (Hconf' : Legacy.conf_op c s (Legacy.ORx p r) = true) by exact Hconf.
+  destruct (match p with IConnack rc => rc =? 0 | _ => false end) eqn:Ek.
+  - destruct p as [rc| | | | |]; try discriminate. assert (rc = 0) by lia. subst rc.
+    apply inv_connack_dead; [exact Hcfg | exact I | exact Hd|].
+    cbn [conf_op] in Hconf. rewrite Hs in Hconf. cbn [negb] in Hconf. destruct (cack s); [discriminate|reflexivity].
+  - rewrite (rx_dead c s p r Hd).
+    + apply inv_fail_after. exact (LInv.inv_rx c Hcfg s p r I Hconf').
+    + intros mid Hp. exact (ui_le1_conf c Hcfg s p r I Hd Hconf' mid Hp).
+    + intros rc ->. intros ->. discriminate.
+Qed.
+
+Lemma legacy_publish_offline s q : sock s = false ->
+  sock (fst (Legacy.do_publish c s q)) = false.
+Proof.
+  intros Hs. unfold Legacy.do_publish. cbv zeta. rewrite Hs. destruct (q =? 0); [reflexivity|].
   destruct ((c_maxq c >? 0) && (Z.of_nat (length (out s)) >=? c_maxq c)); [reflexivity|].
   destruct (has_mid (mid_next (last_mid s)) (out s)); [reflexivity|].
-  destruct (window_free c (inflight s)); [|reflexivity].
-  destruct (sock s); [|reflexivity]. destruct (send _ _). reflexivity.
+  destruct (window_free c (inflight s)); reflexivity.
 Qed.
 
-Lemma invm_publish s q : InvM c s -> conf_op c s (OPublish q) = true -> InvM c (fst (do_publish c s q)).
+Theorem inv_step s o : Inv3 c s -> conf_op c s o = true -> Inv3 c (fst (step c s o)).
 Proof.
-  intros I Hq. cbn [conf_op] in Hq. destruct I as [[C [U [Q Sh]]] Hnd Hso Htg Hqo Hca Hlm Hnt].
-  pose proof max_nonneg as Hmax.
-  pose proof (mid_next_range (last_mid s) Hlm) as Hmid.
-  assert (Htg' : Forall (fun m => 0 <= o_tag m < ntag s + 1) (out s)).
-  { eapply Forall_impl; [|exact Htg]. cbn. intros; lia. }
-  (* the cases that only advance last_mid / ntag *)
-  assert (Hsame : InvM c (pub_s1 s)).
-  { constructor; cbn; try assumption; try lia.
-    exists C, U, Q. destruct Sh. constructor; cbn in *; assumption. }
-  rewrite publish_fst. destruct (q =? 0) eqn:Eq0.
-  { destruct (sock s); [apply invm_send|]; exact Hsame. }
-  destruct ((c_maxq c >? 0) && (Z.of_nat (length (out s)) >=? c_maxq c)); [exact Hsame|].
-  destruct (has_mid (mid_next (last_mid s)) (out s)) eqn:Hhas; [exact Hsame|].
-  assert (Hfresh : ~ In (mid_next (last_mid s)) (mids (out s))).
-  { intros H. apply has_mid_true in H. congruence. }
-  assert (Hqok : forall st, (st = wait_of q \/ st = MsPublish \/ st = MsQueued) ->
-                 qos_okb (pub_new s q st) = true).
-  { intros st Hst. unfold qos_okb, wait_of, pub_new in *. cbn. destruct (q =? 1) eqn:E1.
-    - destruct Hst as [-> | [-> | ->]]; reflexivity.
-    - assert (q = 2) by lia. subst q. destruct Hst as [-> | [-> | ->]]; reflexivity. }
-  (* common obligations for out s ++ [new] *)
-  assert (Hcommon : forall st infl', (st = wait_of q \/ st = MsPublish \/ st = MsQueued) ->
-            (exists C' U' Q', shape c (with_out (pub_s1 s) (out s ++ [pub_new s q st]) infl') C' U' Q') ->
-            InvM c (with_out (pub_s1 s) (out s ++ [pub_new s q st]) infl')).
-  { intros st infl' Hst Hsh. constructor; cbn; try assumption; try lia.
-    - rewrite mids_app. cbn. apply NoDup_app_snoc; [exact Hnd | exact Hfresh].
-    - rewrite tags_app. cbn. apply SSorted_snoc; [assumption|].
-      unfold tags. apply Forall_map. eapply Forall_impl; [|exact Htg]. cbn. intros; lia.
-    - apply Forall_app. split; [assumption|]. constructor; [cbn; lia|constructor].
-    - apply Forall_app. split; [assumption|]. constructor; [apply Hqok; assumption|constructor]. }
-  destruct (window_free c (inflight s)) eqn:W.
-  - assert (Q = []) by (eapply window_free_Q_nil; eassumption). subst Q.
+  intros [I Hfb] Hconf. split; [|exact (fb_step c s o Hfb)].
+  destruct (calm_dec s o) as [Hcalm|Hn].
+  - rewrite (step_bridge c s o Hcalm). apply (LInv.inv_step c Hcfg); [exact I|]. rewrite <- conf_bridge. exact Hconf.
+  - apply not_calm in Hn.
     destruct (sock s) eqn:Hs.
-    + apply invm_send.
-      assert (U = []) by (apply (sh_sockU _ _ _ _ _ Sh); assumption). subst U.
-      apply Hcommon; [left; reflexivity|].
-      exists (C ++ [pub_new s q (wait_of q)]), [], [].
-      destruct Sh as [So Si SC SU SQ Sm Sf Ss Se]. cbn in *. rewrite app_nil_r in So.
-      constructor; cbn; rewrite ?app_nil_r.
-      * rewrite So. reflexivity.
-      * rewrite app_length. cbn. lia.
-      * apply Forall_app. split; [assumption|]. constructor; [|constructor].
-        unfold is_queued, wait_of. cbn. destruct (q =? 1); reflexivity.
-      * constructor.
-      * constructor.
-      * intros H. rewrite app_length. cbn. unfold window_free in W. rewrite Si in W. lia.
-      * intros H; contradiction.
-      * reflexivity.
-      * intros H. apply Forall_app. split; [apply Se; assumption|]. constructor; [|constructor].
-        unfold is_wait, wait_of. cbn. destruct (q =? 1); reflexivity.
-    + apply Hcommon; [right; left; reflexivity|].
-      exists C, (U ++ [pub_new s q MsPublish]), [].
-      destruct Sh as [So Si SC SU SQ Sm Sf Ss Se]. cbn in *.
-      constructor; cbn; rewrite ?app_nil_r in *; try assumption.
-      * rewrite So. rewrite app_assoc. reflexivity.
-      * apply Forall_app. split; [assumption|]. constructor; [reflexivity|constructor].
-      * intros H; congruence.
-  - apply Hcommon; [right; right; reflexivity|].
-    destruct (notfree_full _ _ _ _ _ Hmax Sh W) as [Hpos Hfull].
-    exists C, U, (Q ++ [pub_new s q MsQueued]).
-    destruct Sh as [So Si SC SU SQ Sm Sf Ss Se]. cbn in *.
-    constructor; cbn; try assumption.
-    + rewrite So. rewrite <- !app_assoc. reflexivity.
-    + apply Forall_app. split; [assumption|]. constructor; [reflexivity|constructor].
-    + intros _. split; assumption.
+    2:{ (* no socket: only the transport operation is not calm, and it does nothing *)
+        destruct Hn as [[Hx _]|Ho]; [discriminate|]. subst o. cbn [step]. unfold do_transport. rewrite Hs. exact I. }
+    destruct (failing s) eqn:Hf.
+    + (* a dead socket *)
+      assert (Hd : dead s) by (split; [exact Hs|]; split; [exact Hf | exact (Hfb eq_refl)]).
+      destruct o as [q|ok| |p r|mid q|m]; cbn [step].
+      * (* publish() *)
+        assert (Hq : Legacy.conf_op c s (Legacy.OPublish q) = true) by exact Hconf.
+        destruct (q =? 0) eqn:Eq0.
+        { assert (q = 0) by lia. subst q. rewrite (publish0_dead c s Hd). cbn [fst]. apply inv_lost.
+          exact (LInv.inv_step c Hcfg s (Legacy.OPublish 0) I Hq). }
+        destruct (pub_wrote c s q) eqn:Ew.
+        { rewrite (publish_dead_wrote c s q Hd Ew). cbn [fst]. apply inv_offline_q.
+          - exact (LInv.inv_step c Hcfg (lost s) (Legacy.OPublish q) (inv_lost c s I) Hq).
+          - apply legacy_publish_offline. reflexivity. }
+        rewrite (publish_dead_nowrite c s q Hd Eq0 Ew). exact (LInv.inv_step c Hcfg s (Legacy.OPublish q) I Hq).
+      * exact (LInv.inv_step c Hcfg s (Legacy.OReconnect ok) I eq_refl).
+      * exact (LInv.inv_step c Hcfg s Legacy.OConnLost I eq_refl).
+      * apply inv_rx_dead; assumption.
+      * rewrite (ack_dead c s mid q Hd). apply inv_fail_after.
+        exact (LInv.inv_step c Hcfg s (Legacy.OAck mid q) I eq_refl).
+      * destruct m.
+        -- rewrite (transport_accept s Hs). cbn [fst]. apply inv_set_failing.
+           exact (LInv.inv_step c Hcfg s (Legacy.OBlock false) I eq_refl).
+        -- rewrite (transport_block s Hs). cbn [fst]. apply inv_set_failing.
+           exact (LInv.inv_step c Hcfg s (Legacy.OBlock true) I eq_refl).
+        -- rewrite (transport_fail s Hs). destruct (outq s); cbn [fst]; [|apply inv_lost]; apply inv_set_failing;
+             exact (LInv.inv_step c Hcfg s (Legacy.OBlock true) I eq_refl).
+    + (* the peer vanishes now *)
+      destruct Hn as [[_ Hx]|Ho]; [discriminate|]. subst o. cbn [step].
+      rewrite (transport_fail s Hs). destruct (outq s); cbn [fst]; [|apply inv_lost]; apply inv_set_failing;
+        exact (LInv.inv_step c Hcfg s (Legacy.OBlock true) I eq_refl).
 Qed.
 
-Lemma inv_publish s q : Inv c s -> conf_op c s (OPublish q) = true -> Inv c (fst (do_publish c s q)).
+Lemma inv3_init : Inv3 c (init c).
+Proof. split; [apply inv_init | discriminate]. Qed.
+
+Lemma inv_run_from : forall ops s tr, Inv3 c s -> conforming_from c s ops = true -> Inv3 c (fst (run_from c s tr ops)).
 Proof.
-  intros I Hconf. pose proof (invm_publish s q (inv_m _ _ I) Hconf) as Im'.
-  destruct I as [Im Hi Hq].
-  (* the queue part: the stored messages only grow at the tail, the queue grows by at most one packet *)
-  assert (Hgrow : forall st infl,
-            (can_write (with_out (pub_s1 s) (out s ++ [pub_new s q st]) infl) = true ->
-             outq (with_out (pub_s1 s) (out s ++ [pub_new s q st]) infl) = []) /\
-            Forall (qpkt_ok (out (with_out (pub_s1 s) (out s ++ [pub_new s q st]) infl)))
-                   (outq (with_out (pub_s1 s) (out s ++ [pub_new s q st]) infl))).
-  { intros st infl. split; [exact Hi|]. cbn [out with_out outq pub_s1].
-    eapply Forall_qpkt_ok_mono; [|exact Hq]. intros m Hm _. apply in_or_app. left. exact Hm. }
-  assert (Hs1 : (can_write (pub_s1 s) = true -> outq (pub_s1 s) = []) /\
-                Forall (qpkt_ok (out (pub_s1 s))) (outq (pub_s1 s))) by (split; assumption).
-  constructor; [exact Im'| |]; clear Im'; rewrite publish_fst.
-  - destruct (q =? 0).
-    { destruct (sock s); [|exact (proj1 Hs1)]. rewrite send_can.
-      apply (invq_send (pub_s1 s) _ (out s) Hi Hq). apply qpkt_ok_plain. reflexivity. }
-    destruct ((c_maxq c >? 0) && (Z.of_nat (length (out s)) >=? c_maxq c)); [exact (proj1 Hs1)|].
-    destruct (has_mid (mid_next (last_mid s)) (out s)); [exact (proj1 Hs1)|].
-    destruct (window_free c (inflight s)); [|exact (proj1 (Hgrow _ _))].
-    destruct (sock s); [|exact (proj1 (Hgrow _ _))].
-    rewrite send_can. destruct (Hgrow (wait_of q) (inflight s + 1)) as [G1 G2].
-    eapply (invq_send _ _ _ G1 G2). unfold qpkt_ok. cbn [q_pkt]. intros _.
-    exists (pub_new s q (wait_of q)). split; [apply in_or_app; right; left; reflexivity|].
-    repeat split; reflexivity.
-  - destruct (q =? 0).
-    { destruct (sock s); [|exact (proj2 Hs1)]. rewrite send_out.
-      apply (invq_send (pub_s1 s) _ (out s) Hi Hq). apply qpkt_ok_plain. reflexivity. }
-    destruct ((c_maxq c >? 0) && (Z.of_nat (length (out s)) >=? c_maxq c)); [exact (proj2 Hs1)|].
-    destruct (has_mid (mid_next (last_mid s)) (out s)); [exact (proj2 Hs1)|].
-    destruct (window_free c (inflight s)); [|exact (proj2 (Hgrow _ _))].
-    destruct (sock s); [|exact (proj2 (Hgrow _ _))].
-    rewrite send_out. destruct (Hgrow (wait_of q) (inflight s + 1)) as [G1 G2].
-    eapply (invq_send _ _ _ G1 G2). unfold qpkt_ok. cbn [q_pkt]. intros _.
-    exists (pub_new s q (wait_of q)). split; [apply in_or_app; right; left; reflexivity|].
-    repeat split; reflexivity.
-Qed.
-
-(* ---- reconnect() ---- *)
-Lemma invm_reconnect s ok : InvM c s -> InvM c (fst (do_reconnect c s ok)).
-Proof.
-  intros I. destruct I as [[C [U [Q Sh]]] Hnd Hso Htg Hqo Hca Hlm Hnt].
-  pose proof max_nonneg as Hmax.
-  unfold do_reconnect.
-  destruct (reset_out_char c (clean_now c s) Hmax (out s) 0 ltac:(lia)) as (j & Hj & E & Hfull & Hle).
-  rewrite E. clear E.
-  set (o' := map (reset1 (clean_now c s)) (firstn j (out s)) ++ map toQ (skipn j (out s))).
-  assert (Hm : mids o' = mids (out s)).
-  { unfold o'. rewrite mids_app, !map_ext_mid by (intros; auto using reset1_mid, toQ_mid).
-    rewrite <- mids_app, firstn_skipn. reflexivity. }
-  assert (Ht : tags o' = tags (out s)).
-  { unfold o'. rewrite tags_app, !map_ext_tag by (intros; auto using reset1_tag, toQ_tag).
-    rewrite <- tags_app, firstn_skipn. reflexivity. }
-  assert (Htg' : Forall (fun m => 0 <= o_tag m < ntag s) o').
-  { unfold o'. apply Forall_app. split; apply Forall_map.
-    - eapply Forall_impl; [|apply Forall_firstn; exact Htg]. cbn. intros a. rewrite reset1_tag. auto.
-    - eapply Forall_impl; [|apply Forall_skipn; exact Htg]. cbn. auto. }
-  assert (Hqo' : Forall (fun m => qos_okb m = true) o').
-  { unfold o'. apply Forall_app. split; apply Forall_map.
-    - eapply Forall_impl; [|apply Forall_firstn; exact Hqo]. cbn. intros a. apply qos_ok_reset1.
-    - eapply Forall_impl; [|apply Forall_skipn; exact Hqo]. cbn. intros a. apply qos_ok_toQ. }
-  assert (Hlen : length (map (reset1 (clean_now c s)) (firstn j (out s))) = j).
-  { rewrite map_length, firstn_length. lia. }
-  assert (Hsh : forall sk fk cn it,
-     exists C' U' Q', shape c (mkS o' it (0 + Z.of_nat j) (last_mid s) sk fk false cn (ntag s) [] false) C' U' Q').
-  { intros. exists (map (reset1 (clean_now c s)) (firstn j (out s))), [], (map toQ (skipn j (out s))).
-    constructor; cbn.
-    - reflexivity.
-    - rewrite Hlen. lia.
-    - apply Forall_map. apply Forall_forall. intros; apply reset1_nq.
-    - constructor.
-    - apply Forall_map. apply Forall_forall. intros; reflexivity.
-    - intros H. rewrite Hlen. specialize (Hle H). lia.
-    - intros H. rewrite Hlen.
-      assert (j < length (out s))%nat.
-      { destruct (Nat.eq_dec j (length (out s))) as [->|]; [|lia].
-        rewrite skipn_all in H. exfalso. apply H. reflexivity. }
-      destruct (Hfull H0). specialize (Hle H1). lia.
-    - reflexivity.
-    - discriminate. }
-  destruct ok; cbn [fst]; constructor; cbn -[mids tags]; rewrite ?Hm, ?Ht; try assumption; try discriminate; try lia; apply Hsh.
-Qed.
-
-Lemma reconnect_outq s ok : outq (fst (do_reconnect c s ok)) = [].
-Proof.
-  unfold do_reconnect. destruct (reset_out_list c (clean_now c s) 0 (out s)). destruct ok; reflexivity.
-Qed.
-
-Lemma inv_reconnect s ok : Inv c s -> Inv c (fst (do_reconnect c s ok)).
-Proof.
-  intros I. constructor; [apply invm_reconnect; exact (inv_m _ _ I)| |]; rewrite reconnect_outq;
-    [reflexivity | constructor].
-Qed.
-
-(* ---- connection loss ---- *)
-Lemma shape_sock_false s C U Q fk q b :
-  shape c s C U Q ->
-  shape c (mkS (out s) (inm s) (inflight s) (last_mid s) false fk false (conn s) (ntag s) q b) C U Q.
-Proof.
-  intros [So Si SC SU SQ Sm Sf Ss Se]. constructor; cbn; try assumption; discriminate.
-Qed.
-
-Lemma inv_connlost s : Inv c s -> Inv c (fst (step c s OConnLost)).
-Proof.
-  intros I. cbn [step]. destruct (sock s) eqn:Hs; cbn [fst]; [|assumption].
-  destruct I as [[[C [U [Q Sh]]] Hnd Hso Htg Hqo Hca Hlm Hnt] Hi Hq].
-  unfold with_sock. rewrite andb_false_r.
-  constructor; [|cbn; discriminate | exact Hq].
-  constructor; cbn; try assumption; try discriminate.
-  exists C, U, Q. apply shape_sock_false. assumption.
-Qed.
-
-(* ---- the final acknowledgement of a stored message: explicit result ---- *)
-Lemma on_publish_char s m : InvM c s -> sock s = true -> cack s = true ->
-  In m (out s) -> is_wait m = true ->
-  exists C1 C2 Q j n,
-    out s = (C1 ++ m :: C2) ++ Q /\
-    Forall (fun x => is_wait x = true) (C1 ++ C2) /\
-    Forall (fun x => is_queued x = true) Q /\
-    (j <= length Q)%nat /\
-    n = Z.of_nat (length (C1 ++ C2)) + Z.of_nat j /\
-    (0 < c_max c -> n <= c_max c) /\
-    (skipn j Q <> [] -> 0 < c_max c /\ n = c_max c) /\
-    do_on_publish c s m =
-      (with_q (with_out s ((C1 ++ C2) ++ map rel1 (firstn j Q) ++ skipn j Q) n)
-              (fst (hand_all (conn s) (can_write s) (outq s) (map rel_pk (firstn j Q)))),
-       CbPublish (o_mid m) (o_tag m) :: Published (o_tag m) ::
-       snd (hand_all (conn s) (can_write s) (outq s) (map rel_pk (firstn j Q)))).
-Proof.
-  intros I Hs Hck Hin Hw. destruct I as [[C [U [Q Sh]]] Hnd Hso Htg Hqo Hca Hlm Hnt].
-  pose proof max_nonneg as Hmax.
-  pose proof (wait_in_C _ _ _ _ _ _ Sh Hin Hw) as HinC.
-  destruct Sh as [So Si SC SU SQ Sm Sf Ss Se].
-  assert (U = []) by (apply Ss; assumption). subst U. cbn [app] in So.
-  apply in_split in HinC as (C1 & C2 & ->).
-  assert (So' : out s = C1 ++ m :: (C2 ++ Q)).
-  { rewrite So. rewrite <- app_assoc. reflexivity. }
-  assert (Has : C1 ++ C2 ++ Q = (C1 ++ C2) ++ Q) by apply app_assoc.
-  rewrite So' in Hnd. destruct (NoDup_mids_remove _ _ _ Hnd) as [Hnd' Hn1].
-  assert (Hrm : remove_mid (o_mid m) (out s) = (C1 ++ C2) ++ Q).
-  { rewrite So', <- Has. apply remove_mid_split; [assumption|reflexivity]. }
-  assert (Hlen : Z.of_nat (length (C1 ++ m :: C2)) = Z.of_nat (length (C1 ++ C2)) + 1).
-  { rewrite !app_length. cbn [length]. lia. }
-  assert (SC' : Forall (fun x => is_queued x = false) (C1 ++ C2)) by (eapply Forall_remove; exact SC).
-  assert (Se' : Forall (fun x => is_wait x = true) (C1 ++ C2)) by (eapply Forall_remove; exact (Se Hck)).
-  exists C1, C2, Q.
-  unfold do_on_publish. rewrite Hrm. rewrite Si, Hlen.
-  replace (Z.of_nat (length (C1 ++ C2)) + 1 - 1) with (Z.of_nat (length (C1 ++ C2))) by lia.
-  destruct (c_max c >? 0) eqn:Emax.
-  - rewrite (update_inflight_C c (conn s) (can_write s) (C1 ++ C2) Q _ _ SC').
-    assert (Hk : Z.of_nat (length (C1 ++ C2)) <= c_max c).
-    { specialize (Sm ltac:(lia)). lia. }
-    destruct (update_inflight_Q c (conn s) (can_write s) Q _ (outq s) SQ Hk) as (j & Hj & E & Hle & Hfull).
-    rewrite E. exists j, (Z.of_nat (length (C1 ++ C2)) + Z.of_nat j).
-    split; [exact So|]. split; [exact Se'|]. split; [exact SQ|]. split; [exact Hj|]. split; [reflexivity|].
-    split; [intros _; exact Hle|]. split; [|reflexivity].
-    intros Hne. split; [lia|]. apply Hfull.
-    destruct (Nat.eq_dec j (length Q)) as [->|]; [|lia]. rewrite skipn_all in Hne. exfalso; apply Hne; reflexivity.
-  - assert (Q = []).
-    { destruct Q; [reflexivity|]. destruct (Sf ltac:(discriminate)). lia. }
-    subst Q. exists O, (Z.of_nat (length (C1 ++ C2))).
-    split; [exact So|]. split; [exact Se'|]. split; [exact SQ|]. split; [cbn; lia|]. split; [cbn; lia|].
-    split; [intros; lia|]. split; [intros Hne; exfalso; apply Hne; reflexivity|].
-    cbn [firstn skipn map app hand_all fst snd]. rewrite !app_nil_r.
-    reflexivity.
-Qed.
-
-(* removing the acknowledged message and refilling the window *)
-Lemma inv_on_publish s m : Inv c s -> sock s = true -> cack s = true ->
-  In m (out s) -> is_wait m = true -> q_free (o_mid m) (outq s) -> Inv c (fst (do_on_publish c s m)).
-Proof.
-  intros I Hs Hck Hin Hw Hfree.
-  destruct (on_publish_char s m (inv_m _ _ I) Hs Hck Hin Hw)
-    as (C1 & C2 & Q & j & n & So & Se' & SQ & Hj & Hn & Hle & Hfull & E).
-  rewrite E. cbn [fst]. clear E.
-  destruct I as [[_ Hnd Hso Htg Hqo Hca Hlm Hnt] Hi Hq].
-  set (o' := (C1 ++ C2) ++ map rel1 (firstn j Q) ++ skipn j Q).
-  assert (Hsub : forall (P : omsg -> Prop), Forall P (out s) -> Forall P ((C1 ++ C2) ++ Q)).
-  { intros P H. rewrite So in H. apply Forall_app in H as [H1 H2]. apply Forall_remove in H1.
-    apply Forall_app. split; assumption. }
-  assert (Hm : mids o' = mids ((C1 ++ C2) ++ Q)).
-  { unfold o'. rewrite !mids_app. rewrite map_ext_mid by (intros; apply rel1_mid).
-    rewrite <- (mids_app (firstn j Q)), firstn_skipn. reflexivity. }
-  assert (Ht : tags o' = tags ((C1 ++ C2) ++ Q)).
-  { unfold o'. rewrite !tags_app. rewrite map_ext_tag by (intros; apply rel1_tag).
-    rewrite <- (tags_app (firstn j Q)), firstn_skipn. reflexivity. }
-  assert (Hnd' : NoDup (mids ((C1 ++ C2) ++ Q))).
-  { rewrite So, <- app_assoc in Hnd. cbn [app] in Hnd. apply NoDup_mids_remove in Hnd as [H _].
-    rewrite app_assoc in H. exact H. }
-  assert (Hso' : StronglySorted Z.lt (tags ((C1 ++ C2) ++ Q))).
-  { rewrite So, <- app_assoc in Hso. cbn [app] in Hso. apply SSorted_tags_remove in Hso.
-    rewrite app_assoc in Hso. exact Hso. }
-  assert (SC' : Forall (fun x => is_queued x = false) (C1 ++ C2)).
-  { eapply Forall_impl; [|exact Se']. cbn. intros a. apply wait_nq. }
-  assert (Hlenj : length (firstn j Q) = j) by (rewrite firstn_length; lia).
-  constructor.
-  - apply invm_with_q. constructor; cbn -[mids tags]; fold o'; rewrite ?Hm, ?Ht; try assumption.
-    + exists ((C1 ++ C2) ++ map rel1 (firstn j Q)), [], (skipn j Q).
-      constructor; cbn.
-      * unfold o'. rewrite <- !app_assoc. reflexivity.
-      * rewrite (app_length (C1 ++ C2)), map_length, Hlenj. lia.
-      * apply Forall_app. split; [assumption|]. apply Forall_map. apply Forall_forall. intros x _.
-        apply wait_nq. apply rel1_wait.
-      * constructor.
-      * apply Forall_skipn. assumption.
-      * intros H. rewrite (app_length (C1 ++ C2)), map_length, Hlenj. specialize (Hle H). lia.
-      * intros H. destruct (Hfull H) as [H1 H2]. split; [exact H1|].
-        rewrite (app_length (C1 ++ C2)), map_length, Hlenj. lia.
-      * reflexivity.
-      * intros _. apply Forall_app. split; [assumption|]. apply Forall_map. apply Forall_forall. intros x _. apply rel1_wait.
-    + unfold o'. pose proof (Hsub _ Htg) as H. apply Forall_app in H as [H1 H2].
-      apply Forall_app. split; [exact H1|]. apply Forall_app. split.
-      * apply Forall_map. apply Forall_firstn. exact H2.
-      * apply Forall_skipn. exact H2.
-    + unfold o'. pose proof (Hsub _ Hqo) as H. apply Forall_app in H as [H1 H2].
-      apply Forall_app. split; [exact H1|]. apply Forall_app. split.
-      * apply Forall_map. eapply Forall_impl; [|apply Forall_firstn; exact H2]. cbn. intros a. apply qos_ok_rel1.
-      * apply Forall_skipn. exact H2.
-  - change (can_write (with_q (with_out s o' n) (fst (hand_all (conn s) (can_write s) (outq s) (map rel_pk (firstn j Q))))))
-      with (can_write s).
-    intros Hc. cbn [outq with_q]. rewrite (hand_all_fst _ _ _ _ Hi), Hc. reflexivity.
-  - cbn [out outq with_q with_out]. fold o'. rewrite (hand_all_fst _ _ _ _ Hi).
-    destruct (can_write s); [constructor|]. apply Forall_app. split.
-    + apply Forall_forall. intros x Hx.
-      apply (qpkt_ok_except (o_mid m) (out s)); [exact (q_free_refers _ _ _ Hfree Hx)| |exact (proj1 (Forall_forall _ _) Hq x Hx)].
-      intros w Hwin Hww Hne. rewrite So in Hwin. unfold o'.
-      apply in_app_or in Hwin as [Hwin|Hwin].
-      * apply in_or_app. left. apply in_app_or in Hwin as [Hwin|[Hwin|Hwin]].
-        -- apply in_or_app. left. exact Hwin.
-        -- subst w. exfalso. apply Hne. reflexivity.
-        -- apply in_or_app. right. exact Hwin.
-      * exfalso. pose proof (proj1 (Forall_forall _ _) SQ w Hwin) as Hqw. cbn beta in Hqw.
-        apply wait_nq in Hww. congruence.
-    + apply Forall_map. apply Forall_forall. intros x Hx.
-      unfold qpkt_ok, rel_pk, pub_pkt. cbn [q_pkt]. intros _.
-      exists (rel1 x). split.
-      * unfold o'. apply in_or_app. right. apply in_or_app. left. apply in_map. exact Hx.
-      * repeat split; reflexivity.
-Qed.
-
-(* ---- the accepting CONNACK: explicit result ---- *)
-Definition connack_s1 (s : sess) : sess :=
-  mkS (out s) (inm s) (inflight s) (last_mid s) (sock s) false true (conn s) (ntag s) (outq s) (blocked s).
-
-Lemma connack_char s r : Inv c s -> sock s = true ->
-  exists C Q,
-    out s = C ++ Q /\ shape c s C [] Q /\
-    do_rx c s (IConnack 0) r =
-      (with_q (with_out (connack_s1 s) (map cl1 C ++ Q) (inflight s))
-              (fst (hand_all (conn s) (can_write s) (outq s) (flat_map cl_pk C))),
-       Inp (IConnack 0) :: snd (hand_all (conn s) (can_write s) (outq s) (flat_map cl_pk C))).
-Proof.
-  intros I Hs. destruct (inv_shape _ _ I) as (C & U & Q & Sh).
-  pose proof (sh_sockU _ _ _ _ _ Sh Hs) as HU. subst U.
-  pose proof (sh_out _ _ _ _ _ Sh) as So. cbn [app] in So.
-  exists C, Q. split; [exact So|]. split; [exact Sh|].
-  assert (E : connack_loop (conn s) (can_write s) (outq s) (out s) =
-              (map cl1 C ++ Q, fst (hand_all (conn s) (can_write s) (outq s) (flat_map cl_pk C)),
-               snd (hand_all (conn s) (can_write s) (outq s) (flat_map cl_pk C)))).
-  { rewrite So. apply connack_loop_char;
-      [exact (sh_C _ _ _ _ _ Sh) | exact (sh_Q _ _ _ _ _ Sh) | exact (inv_qidle _ _ I)]. }
-  unfold do_rx. replace (negb (sock s)) with false by (rewrite Hs; reflexivity).
-  change (0 =? 0) with true. cbv iota zeta. rewrite E. reflexivity.
-Qed.
-
-Lemma cl1_wait_id m : is_wait m = true -> cl1 m = m.
-Proof. unfold is_wait, cl1. destruct (o_st m); try discriminate; reflexivity. Qed.
-
-Lemma cl_pk_ok m l : In (cl1 m) l -> Forall (qpkt_ok l) (cl_pk m).
-Proof.
-  intros Hin. unfold cl_pk, cl1 in *. destruct (o_st m) eqn:Est; try constructor.
-  - unfold qpkt_ok, pub_pkt. cbn [q_pkt]. intros _. exists (set_st m (wait_of (o_qos m))).
-    split; [exact Hin|]. repeat split; reflexivity.
-  - constructor.
-  - destruct (o_qos m =? 2); [|constructor]. constructor; [|constructor].
-    unfold qpkt_ok, rel_pkt. cbn [q_pkt]. exists (set_st m MsWaitPubcomp).
-    split; [exact Hin|]. repeat split; reflexivity.
-Qed.
-
-Lemma inv_connack s rc r : Inv c s -> sock s = true -> Inv c (fst (do_rx c s (IConnack rc) r)).
-Proof.
-  intros I Hs. destruct (rc =? 0) eqn:Erc.
-  2:{ unfold do_rx. rewrite Hs. cbn [negb]. rewrite Erc. cbn [fst].
-      destruct I as [[[C [U [Q Sh]]] Hnd Hso Htg Hqo Hca Hlm Hnt] Hi Hq].
-      unfold with_sock. cbn. constructor; [|cbn; discriminate | exact Hq].
-      constructor; cbn; try assumption; try discriminate.
-      exists C, U, Q. apply (shape_sock_false s C U Q false _ _ Sh). }
-  assert (rc = 0) by lia. subst rc.
-  destruct (connack_char s r I Hs) as (C & Q & So & Sh & E). rewrite E. cbn [fst]. clear E.
-  destruct I as [[_ Hnd Hso Htg Hqo Hca Hlm Hnt] Hi Hq].
-  destruct Sh as [_ Si SC SU SQ Sm Sf Ss Se].
-  assert (Hm : mids (map cl1 C ++ Q) = mids (C ++ Q)).
-  { rewrite !mids_app. rewrite map_ext_mid by apply cl1_mid. reflexivity. }
-  assert (Ht : tags (map cl1 C ++ Q) = tags (C ++ Q)).
-  { rewrite !tags_app. rewrite map_ext_tag by apply cl1_tag. reflexivity. }
-  rewrite So in Hnd, Hso, Htg, Hqo. apply Forall_app in Htg as [Htg1 Htg2]. apply Forall_app in Hqo as [Hqo1 Hqo2].
-  constructor.
-  - apply invm_with_q. constructor; cbn -[mids tags]; rewrite ?Hm, ?Ht; try assumption; try (intros _; assumption).
-    + exists (map cl1 C), [], Q. constructor; cbn; try assumption; try reflexivity.
-      * rewrite map_length. assumption.
-      * apply Forall_map. eapply Forall_impl; [|exact SC]. cbn. intros a. apply cl1_nq.
-      * rewrite map_length. assumption.
-      * rewrite map_length. assumption.
-      * intros _. apply Forall_map. apply Forall_forall. intros x Hx.
-        apply cl1_wait; [exact (proj1 (Forall_forall _ _) Hqo1 x Hx) | exact (proj1 (Forall_forall _ _) SC x Hx)].
-    + apply Forall_app. split; [|assumption]. apply Forall_map. eapply Forall_impl; [|exact Htg1]. cbn. intros a. rewrite cl1_tag. auto.
-    + apply Forall_app. split; [|assumption]. apply Forall_map. eapply Forall_impl; [|exact Hqo1]. cbn. intros a. apply qos_ok_cl1.
-  - change (can_write (with_q (with_out (connack_s1 s) (map cl1 C ++ Q) (inflight s))
-                              (fst (hand_all (conn s) (can_write s) (outq s) (flat_map cl_pk C)))))
-      with (can_write s).
-    intros Hc. cbn [outq with_q]. rewrite (hand_all_fst _ _ _ _ Hi), Hc. reflexivity.
-  - cbn [out outq with_q with_out]. rewrite (hand_all_fst _ _ _ _ Hi).
-    destruct (can_write s); [constructor|]. apply Forall_app. split.
-    + eapply Forall_qpkt_ok_mono; [|exact Hq]. intros w Hwin Hww. rewrite So in Hwin.
-      apply in_app_or in Hwin as [Hwin|Hwin].
-      * apply in_or_app. left. rewrite <- (cl1_wait_id w Hww). apply in_map. exact Hwin.
-      * apply in_or_app. right. exact Hwin.
-    + apply Forall_flat_map. apply Forall_forall. intros x Hx. apply cl_pk_ok.
-      apply in_or_app. left. apply in_map. exact Hx.
-Qed.
-
-Lemma invm_with_inm s i : InvM c s -> InvM c (with_inm s i).
-Proof. apply invm_ext; reflexivity. Qed.
-
-Lemma inv_with_inm s i : Inv c s -> Inv c (with_inm s i).
-Proof. intros [Im Hi Hq]. constructor; [apply invm_with_inm; exact Im | exact Hi | exact Hq]. Qed.
-
-(* what conformance says about the queue when a final acknowledgement arrives *)
-Lemma conf_free s m : Inv c s -> In m (out s) ->
-  (o_st m = MsWaitPuback /\ q_has_pub (o_mid m) (outq s) = false) \/
-  (o_st m = MsWaitPubcomp /\ q_has_rel (o_mid m) (outq s) = false) ->
-  q_free (o_mid m) (outq s).
-Proof.
-  intros I Hin H. pose proof (inv_nodup _ _ I) as Hnd. pose proof (inv_q _ _ I) as Hq.
-  destruct H as [[Hst Hp]|[Hst Hr]]; split; try assumption.
-  - destruct (q_has_rel (o_mid m) (outq s)) eqn:E; [|reflexivity]. exfalso.
-    apply q_has_rel_true in E as (x & t & Hx & Ex).
-    pose proof (proj1 (Forall_forall _ _) Hq x Hx) as Hok. unfold qpkt_ok in Hok. rewrite Ex in Hok.
-    destruct Hok as (w & Hw & H1 & H2 & H3).
-    assert (w = m) by (eapply NoDup_mids_eq; eassumption). subst w. congruence.
-  - destruct (q_has_pub (o_mid m) (outq s)) eqn:E; [|reflexivity]. exfalso.
-    apply q_has_pub_true in E as (x & qs & d & t & Hx & Ex & Hqs).
-    pose proof (proj1 (Forall_forall _ _) Hq x Hx) as Hok. unfold qpkt_ok in Hok. rewrite Ex in Hok.
-    destruct (Hok Hqs) as (w & Hw & H1 & H2 & H3 & H4 & H5).
-    assert (w = m) by (eapply NoDup_mids_eq; eassumption). subst w.
-    rewrite Hst in H5. unfold wait_of in H5. destruct (qs =? 1); discriminate.
-Qed.
-
-Lemma update_mid_other mid f : forall l w, In w l -> o_mid w <> mid -> In w (update_mid mid f l).
-Proof.
-  induction l as [|x l IH]; intros w Hin Hne; [destruct Hin|]. cbn [update_mid].
-  destruct (o_mid x =? mid) eqn:E.
-  - destruct Hin as [->|Hin]; [exfalso; lia | right; exact Hin].
-  - destruct Hin as [->|Hin]; [left; reflexivity | right; apply IH; assumption].
-Qed.
-
-Lemma update_mid_hit mid f : forall l m, find_mid mid l = Some m -> In (f m) (update_mid mid f l).
-Proof.
-  induction l as [|x l IH]; intros m Hf; cbn [find_mid update_mid] in *; [discriminate|].
-  destruct (o_mid x =? mid).
-  - inversion Hf; subst. left. reflexivity.
-  - right. apply IH. exact Hf.
-Qed.
-
-(* ---- PUBREC ---- *)
-Lemma inv_pubrec s mid m : Inv c s -> sock s = true -> find_mid mid (out s) = Some m ->
-  o_qos m = 2 ->
-  (o_st m = MsWaitPubrec /\ q_has_pub mid (outq s) = false) \/ o_st m = MsWaitPubcomp ->
-  Inv c (fst (send (with_out s (update_mid mid (fun m0 => set_st m0 MsWaitPubcomp) (out s)) (inflight s))
-                   (mkQ (PPubrel mid (o_tag m)) false))).
-Proof.
-  intros I Hs Ef Hq2 Hst.
-  pose proof (find_mid_In _ _ _ Ef) as [Hin Hmid].
-  assert (Hw : is_wait m = true) by (unfold is_wait; destruct Hst as [[-> _]| ->]; reflexivity).
-  set (o' := update_mid mid (fun m0 => set_st m0 MsWaitPubcomp) (out s)).
-  set (m' := set_st m MsWaitPubcomp).
-  assert (Hm'in : In m' o') by (exact (update_mid_hit mid (fun m0 => set_st m0 MsWaitPubcomp) (out s) m Ef)).
-  (* no PUBLISH of this message is queued *)
-  assert (Hnopub : forall x qs d t, In x (outq s) -> q_pkt x = PPublish mid qs d t -> qs <> 0 -> False).
-  { intros x qs d t Hx Ex Hqs. destruct Hst as [[Hst Hp]|Hst].
-    - exact (q_has_pub_false _ _ _ _ _ _ _ Hp Hx Ex Hqs eq_refl).
-    - pose proof (proj1 (Forall_forall _ _) (inv_q _ _ I) x Hx) as Hok. unfold qpkt_ok in Hok. rewrite Ex in Hok.
-      destruct (Hok Hqs) as (w & Hwi & H1 & H2 & H3 & H4 & H5).
-      assert (w = m) by (eapply NoDup_mids_eq; [exact (inv_nodup _ _ I) | exact Hwi | exact Hin | congruence]). subst w.
-      rewrite Hst in H5. unfold wait_of in H5. destruct (qs =? 1); discriminate. }
-  assert (Hqold : Forall (qpkt_ok o') (outq s)).
-  { apply Forall_forall. intros x Hx.
-    pose proof (proj1 (Forall_forall _ _) (inv_q _ _ I) x Hx) as Hok. unfold qpkt_ok in *.
-    destruct (q_pkt x) as [|mi qs d t|mi t|mi|mi|mi] eqn:Ex; try exact Logic.I.
-    - intros Hqs. destruct (Hok Hqs) as (w & Hwi & H1 & H2 & H3 & H4 & H5).
-      exists w. split; [|tauto]. apply update_mid_other; [exact Hwi|].
-      intros E. apply (Hnopub x qs d t Hx); [|exact Hqs]. rewrite Ex. congruence.
-    - destruct Hok as (w & Hwi & H1 & H2 & H3).
-      destruct (Z.eq_dec (o_mid w) mid) as [E|E].
-      + assert (w = m) by (eapply NoDup_mids_eq; [exact (inv_nodup _ _ I) | exact Hwi | exact Hin | congruence]). subst w.
-        exists m'. split; [exact Hm'in|]. unfold m'. cbn. tauto.
-      + exists w. split; [apply update_mid_other; assumption | tauto]. }
-  (* the message-store part: as in the model without a queue *)
-  assert (Im' : InvM c (with_out s o' (inflight s))).
-  { destruct I as [[[C [U [Q Sh]]] Hnd Hso Htg Hqo Hca Hlm Hnt] _ _].
-    pose proof (wait_in_C _ _ _ _ _ _ Sh Hin Hw) as HinC.
-    destruct Sh as [So Si SC SU SQ Sm Sf Ss Se].
-    apply in_split in HinC as (C1 & C2 & ->).
-    assert (So' : out s = C1 ++ m :: (C2 ++ U ++ Q)) by (rewrite So, <- app_assoc; reflexivity).
-    pose proof Hnd as Hnd0. rewrite So' in Hnd0. destruct (NoDup_mids_remove _ _ _ Hnd0) as [_ Hn1].
-    assert (Hup : o' = (C1 ++ m' :: C2) ++ U ++ Q).
-    { unfold o'. rewrite So'. rewrite <- Hmid. rewrite update_mid_split; [|exact Hn1|reflexivity]. rewrite <- app_assoc. reflexivity. }
-    rewrite Hup.
-    assert (Hm : mids ((C1 ++ m' :: C2) ++ U ++ Q) = mids (out s)).
-    { rewrite So. unfold mids. rewrite !map_app. reflexivity. }
-    assert (Ht : tags ((C1 ++ m' :: C2) ++ U ++ Q) = tags (out s)).
-    { rewrite So. unfold tags. rewrite !map_app. reflexivity. }
-    assert (Hrep : forall (P : omsg -> Prop), P m' -> Forall P (out s) -> Forall P ((C1 ++ m' :: C2) ++ U ++ Q)).
-    { intros P Hp H. rewrite So in H. apply Forall_app in H as [H1 H2]. apply Forall_app. split; [|assumption].
-      apply Forall_app in H1 as [H3 H4]. inversion H4; subst. apply Forall_app. split; [assumption|]. constructor; assumption. }
-    constructor; cbn -[mids tags]; rewrite ?Hm, ?Ht; try assumption.
-    + exists (C1 ++ m' :: C2), U, Q. constructor; cbn; try assumption.
-      * reflexivity.
-      * rewrite Si. rewrite !app_length. reflexivity.
-      * apply Forall_app in SC as [H3 H4]. inversion H4; subst. apply Forall_app. split; [assumption|]. constructor; [reflexivity|assumption].
-      * intros H. specialize (Sm H). rewrite !app_length in *. cbn [length] in *. lia.
-      * intros H. specialize (Sf H). rewrite !app_length in *. cbn [length] in *. lia.
-      * intros H. specialize (Se H). apply Forall_app in Se as [H3 H4]. inversion H4; subst.
-        apply Forall_app. split; [assumption|]. constructor; [reflexivity|assumption].
-    + apply Hrep; [|assumption]. unfold m'. cbn. exact (proj1 (Forall_forall _ _) Htg m Hin).
-    + apply Hrep; [|assumption]. unfold m', qos_okb. cbn. rewrite Hq2. reflexivity. }
-  assert (Hx : qpkt_ok o' (mkQ (PPubrel mid (o_tag m)) false)).
-  { unfold qpkt_ok. cbn [q_pkt]. exists m'. split; [exact Hm'in|]. unfold m'. cbn. tauto. }
-  destruct (invq_send (with_out s o' (inflight s)) (mkQ (PPubrel mid (o_tag m)) false) o'
-              (inv_qidle _ _ I) Hqold Hx) as [H1 H2].
-  constructor; [apply invm_send; exact Im' | rewrite send_can; exact H1 | rewrite send_out; exact H2].
-Qed.
-
-(* ---- one inbound packet ---- *)
-Lemma inv_rx s p r : Inv c s -> conf_op c s (ORx p r) = true -> Inv c (fst (do_rx c s p r)).
-Proof.
-  intros I Hconf. cbn [conf_op] in Hconf.
-  destruct (sock s) eqn:Hs; [|unfold do_rx; rewrite Hs; cbn [negb fst]; exact I].
-  cbn [negb] in Hconf.
-  destruct p as [rc|mid|mid|mid|mid|q mid tag].
-  - (* CONNACK *) apply inv_connack; assumption.
-  - (* PUBACK *)
-    unfold do_rx. rewrite Hs. cbn [negb].
-    destruct (find_mid mid (out s)) as [m|] eqn:Ef; [|cbn [fst]; exact I].
-    pose proof (find_mid_In _ _ _ Ef) as [Hin Hmid]. subst mid.
-    apply andb_true_iff in Hconf as [Hck Hconf]. apply andb_true_iff in Hconf as [Hconf Hnq].
-    apply andb_true_iff in Hconf as [Hq Hst].
-    assert (Hst' : o_st m = MsWaitPuback) by (destruct (o_st m); try discriminate; reflexivity).
-    pose proof (inv_on_publish s m I Hs Hck Hin) as H.
-    destruct (do_on_publish c s m) as [s' ev] eqn:Ed. cbn [fst] in *.
-    apply H; [unfold is_wait; rewrite Hst'; reflexivity|].
-    apply conf_free; [exact I | exact Hin|]. left. split; [exact Hst'|]. destruct (q_has_pub (o_mid m) (outq s)); [discriminate|reflexivity].
-  - (* PUBREC *)
-    unfold do_rx. rewrite Hs. cbn [negb].
-    destruct (find_mid mid (out s)) as [m|] eqn:Ef; [|cbn [fst]; exact I].
-    apply andb_true_iff in Hconf as [Hck Hconf]. apply andb_true_iff in Hconf as [Hq Hst].
-    pose proof (inv_pubrec s mid m I Hs Ef ltac:(lia)) as H.
-    destruct (send _ _) as [s' ev]. cbn [fst] in *. apply H.
-    destruct (o_st m); try discriminate; [left; split; [reflexivity|] | right; reflexivity].
-    destruct (q_has_pub mid (outq s)); [discriminate|reflexivity].
-  - (* PUBCOMP *)
-    unfold do_rx. rewrite Hs. cbn [negb].
-    destruct (find_mid mid (out s)) as [m|] eqn:Ef; [|cbn [fst]; exact I].
-    pose proof (find_mid_In _ _ _ Ef) as [Hin Hmid]. subst mid.
-    apply andb_true_iff in Hconf as [Hck Hconf]. apply andb_true_iff in Hconf as [Hconf Hnq].
-    apply andb_true_iff in Hconf as [Hq Hst].
-    assert (Hst' : o_st m = MsWaitPubcomp) by (destruct (o_st m); try discriminate; reflexivity).
-    pose proof (inv_on_publish s m I Hs Hck Hin) as H.
-    destruct (do_on_publish c s m) as [s' ev] eqn:Ed. cbn [fst] in *.
-    apply H; [unfold is_wait; rewrite Hst'; reflexivity|].
-    apply conf_free; [exact I | exact Hin|]. right. split; [exact Hst'|]. destruct (q_has_rel (o_mid m) (outq s)); [discriminate|reflexivity].
-  - (* PUBREL *)
-    unfold do_rx. rewrite Hs. cbn [negb].
-    destruct (in_find mid (inm s)) as [tag|].
-    + destruct (deliver c mid 2 tag r) as [ev pr]. destruct pr; [|destruct (c_manual c)]; cbn [fst];
-        try (apply inv_with_inm; exact I).
-      pose proof (inv_send_plain c (with_inm s (in_remove mid (inm s))) (mkQ (PPubcomp mid) false)
-                    (inv_with_inm _ _ I) Logic.I) as H.
-      destruct (send _ _). exact H.
-    + destruct (c_manual c); cbn [fst]; [exact I|].
-      pose proof (inv_send_plain c s (mkQ (PPubcomp mid) false) I Logic.I) as H. destruct (send _ _). exact H.
-  - (* PUBLISH *)
-    unfold do_rx. rewrite Hs. cbn [negb].
-    destruct (q =? 0).
-    + destruct (deliver c 0 0 tag r) as [ev pr]. cbn [fst]. exact I.
-    + destruct (q =? 1).
-      * destruct (deliver c mid 1 tag r) as [ev pr]. destruct pr; [|destruct (c_manual c)]; cbn [fst]; try exact I.
-        pose proof (inv_send_plain c s (mkQ (PPuback mid) false) I Logic.I) as H. destruct (send _ _). exact H.
-      * pose proof (inv_send_plain c s (mkQ (PPubrec mid) false) I Logic.I) as H. destruct (send _ _).
-        cbn [fst] in *. apply inv_with_inm. exact H.
-Qed.
-
-Lemma inv_ack s mid q : Inv c s -> Inv c (fst (do_ack c s mid q)).
-Proof.
-  intros I. unfold do_ack. destruct (c_manual c); [|exact I].
-  destruct (q =? 1); [apply inv_send_plain; [exact I | exact Logic.I]|].
-  destruct (q =? 2); [apply inv_send_plain; [exact I | exact Logic.I] | exact I].
-Qed.
-
-Lemma inv_block s b : Inv c s -> Inv c (fst (do_block s b)).
-Proof.
-  intros [Im Hi Hq]. unfold do_block. destruct (sock s) eqn:Hs; [|constructor; assumption].
-  destruct b; cbn [fst lw].
-  - constructor; [revert Im; apply invm_ext; reflexivity | | exact Hq].
-    unfold can_write. cbn. rewrite andb_false_r. discriminate.
-  - constructor; [revert Im; apply invm_ext; reflexivity | reflexivity | constructor].
-Qed.
-
-Theorem inv_step s o : Inv c s -> conf_op c s o = true -> Inv c (fst (step c s o)).
-Proof.
-  intros I Hc. destruct o as [q|ok| |p r|mid q|b]; cbn [step].
-  - apply inv_publish; assumption.
-  - apply inv_reconnect; assumption.
-  - apply (inv_connlost s I).
-  - apply inv_rx; assumption.
-  - apply inv_ack; assumption.
-  - apply inv_block; assumption.
-Qed.
-
-Lemma run_from_fst_indep : forall ops s tr tr', fst (run_from c s tr ops) = fst (run_from c s tr' ops).
-Proof.
-  induction ops as [|o ops IH]; intros s tr tr'; cbn [run_from]; [reflexivity|].
-  destruct (step c s o) as [s' ev]. apply IH.
-Qed.
-
-(* every state reached by a conforming history satisfies the invariant *)
-Theorem inv_reachable_from : forall ops s, Inv c s -> conforming_from c s ops = true ->
-  Inv c (fst (run_from c s [] ops)) /\
-  Forall (fun st => Inv c (fst st)) (run_steps c s ops).
-Proof.
-  induction ops as [|o ops IH]; intros s I Hc; cbn [run_from run_steps conforming_from] in *.
-  - split; [exact I | constructor].
-  - apply andb_true_iff in Hc as [Hc1 Hc2].
-    pose proof (inv_step s o I Hc1) as I'.
-    destruct (step c s o) as [s' ev] eqn:Es. cbn [fst] in *.
-    destruct (IH s' I' Hc2) as [H1 H2]. split.
-    + rewrite (run_from_fst_indep ops s' ([] ++ ev) []). exact H1.
-    + constructor; [exact I' | exact H2].
+  induction ops as [|o ops IH]; intros s tr I Hc; cbn [run_from conforming_from] in *; [exact I|].
+  apply andb_true_iff in Hc as [Hc1 Hc2]. pose proof (inv_step s o I Hc1) as I'.
+  destruct (step c s o) as [s' ev]. cbn [fst] in *. apply IH; assumption.
 Qed.
 
 Theorem inv_reachable ops : conforming c ops = true -> Inv c (fst (run c ops)).
-Proof. intros H. apply inv_reachable_from; [apply inv_init | exact H]. Qed.
+Proof. intros Hc. apply i3_inv. apply inv_run_from; [apply inv3_init | exact Hc]. Qed.
 
-End Preserve.
+End Step.
+
+Print Assumptions inv_reachable.
